@@ -2,6 +2,7 @@
 (* Trace validation of dispatches to generated methods against Binding. *)
 EXTENDS Binding, TraceBase
 DevKwRebind == {"KwRebind"}
+DevViewSelf == {"ViewSelfDocumented"}
 
 KeysOf(k) == {x \in KeyNames : k[x]}
 TraceInit == /\ tid \in 1..NTraces /\ l = 1
@@ -14,9 +15,16 @@ TDirect == /\ IsEvent("Direct") /\ pc = "recv"
            /\ \/ Verdict = "dontcare"
               \/ Verdict = "fail" /\ E.v = "fail"
               \/ /\ Verdict = "ok" /\ E.v = "ok"
-                 /\ \A x \in DOMAIN ExpectedRec : (ExpectedRec[x] = "CTX" \/ ExpectedRec[x] = E.rec[x])
+                 /\ \A x \in DOMAIN ExpectedRec : (ExpectedRec[x] = "CTX" \/ (ctx.mode = "excl" /\ ctx.name = x) \/ ExpectedRec[x] = E.rec[x])
                  /\ E.va = ExpectedVa /\ E.kw = ExpectedKw
            /\ UNCHANGED vars
+\* C17: the parameter names (and the required ones) the generated OpenAPI request schema / OpenRPC params list for this method
+TDoc == /\ IsEvent("Doc") /\ pc = "recv"
+        /\ LET extra == IF "ViewSelfDocumented" \in Deviations /\ flavour = "view" THEN {"self"} ELSE {} IN
+              \* known deviation ViewSelfDocumented: class based view methods are documented with their `self` parameter
+              /\ {E.names[k] : k \in DOMAIN E.names} = DocNames \cup extra
+              /\ {E.required[k] : k \in DOMAIN E.required} = DocRequired \cup extra
+        /\ UNCHANGED vars
 Obs == [ran |-> TRUE, vctx |-> E.vctx, rec |-> E.rec, va |-> E.va, kw |-> E.kw]
 TExec   == IsEvent("Exec") /\ Exec(Obs)
 TReply  == /\ IsEvent("Reply")
@@ -24,6 +32,6 @@ TReply  == /\ IsEvent("Reply")
               \/ (ReplyInvalidParams /\ E.r = "c_m32602")
               \/ (Dev_ReplyServerError /\ E.r = "c_m32000")
 TSilent == Bind /\ Silent
-TraceNext == TDirect \/ TExec \/ TReply \/ TSilent
-TraceConstraint == NoBindNoRun /\ ArgsExact /\ CtxIsServers /\ ResultUnchanged /\ Progress
+TraceNext == TDoc \/ TDirect \/ TExec \/ TReply \/ TSilent
+TraceConstraint == DocumentedIsAccepted /\ NoBindNoRun /\ ArgsExact /\ CtxIsServers /\ ResultUnchanged /\ Progress
 =============================================================================
